@@ -629,6 +629,22 @@ func samePtr(a, b specification.SpecValidator) bool {
 // not read back from the code (a changed bound must show up as a disagreement).  The two private
 // validators are recognised by symbol name; the bank-erosion bounds are recomputed here from the
 // documented expressions.
+// pinnedPrivateValidators: the keys whose validators are PRIVATE functions of the pinned code, with the bounds transcribed from it.
+// Such a key's validator may be rebuilt (a factory, a closure, another name) but must still do exactly this: a validator of
+// another range on one of these keys is not a new specification, it is the old one got wrong.
+var pinnedPrivateValidators = map[string]string{
+	"YearsOfErosion":         "intbounds 1 9223372036854775807",
+	"BankErosionFudgeFactor": "decbounds " + floatBits(math.Pow(10, -5)) + " " + floatBits(5*math.Pow(10, -4)),
+}
+
+func validatorTokenOf(s specification.Specification) string {
+	tok := validatorToken(s.Validator)
+	if want, pinned := pinnedPrivateValidators[s.Key]; pinned && tok != want {
+		return "unknown:" + hexS("validator of "+s.Key+" behaves as ["+tok+"], the pinned code's as ["+want+"]")
+	}
+	return tok
+}
+
 func validatorToken(v specification.SpecValidator) string {
 	switch {
 	case v == nil:
@@ -946,7 +962,7 @@ func (h *paramHarness) ensureComp(name string) *paramComp {
 	sort.Strings(keys)
 	for _, k := range keys {
 		s := specs[k]
-		tok := validatorToken(s.Validator)
+		tok := validatorTokenOf(s)
 		h.noteStrings(s.DefaultValue)
 		if s.Key != k {
 			h.c.Fail("spec-table", "params:"+name+":"+k+":key-mismatch", "specification stored under a key different from its Key field: "+s.Key, nil)
@@ -954,6 +970,34 @@ func (h *paramHarness) ensureComp(name string) *paramComp {
 		h.c.Op(fmt.Sprintf("spec %s k:%s %s %s %s", name, hexS(k), b2s(s.IsOptional), tok, encValue(s.DefaultValue)), "ok")
 		h.c.Op(fmt.Sprintf("spect %s k:%s", name, hexS(k)), "ok")
 		h.c.Stat("spec " + name + " validator=" + strings.Fields(tok)[0] + " optional=" + b2s(s.IsOptional))
+		if want, pinned := pinnedPrivateValidators[k]; pinned && strings.HasPrefix(tok, "unknown:") && s.Validator != nil {
+			// the search for a failing input: a value on which this key's validator and the pinned range disagree
+			if ref, _ := directValidator(strings.Fields(want)); ref != nil {
+				wf := strings.Fields(want)
+				var around []interface{}
+				if wf[0] == "decbounds" {
+					lo, _ := strconv.ParseUint(wf[1], 16, 64)
+					hi, _ := strconv.ParseUint(wf[2], 16, 64)
+					l, u := math.Float64frombits(lo), math.Float64frombits(hi)
+					around = []interface{}{l, u, math.Nextafter(l, math.Inf(-1)), math.Nextafter(u, math.Inf(1)), (l + u) / 2, l / 2, u * 2}
+				} else {
+					lo, _ := strconv.ParseInt(wf[1], 10, 64)
+					hi, _ := strconv.ParseInt(wf[2], 10, 64)
+					around = []interface{}{lo, hi, lo - 1, lo + 1, hi - 1}
+				}
+				for _, x := range append(around, validatorProbes()...) {
+					got, exp := "panic", "panic"
+					protect(func() { got = classifyVerdict(s.Validator(k, x)) })
+					protect(func() { exp = classifyVerdict(ref(k, x)) })
+					if got != exp {
+						h.c.Fail("C18:value-has-the-range-its-specification-demands", "params:"+name+":"+k+":range-not-enforced",
+							fmt.Sprintf("component %s: the validator of %s judges %#v %s; the range the specification of the pinned code demands (%s) makes it %s", name, k, x, got, want, exp),
+							[]string{"load m0 " + name + " comp", "validate " + name + " k:" + hexS(k) + " " + encValue(x)})
+						break
+					}
+				}
+			}
+		}
 		if strings.HasPrefix(tok, "unknown:") {
 			// the tie is broken (the model cannot name this validator), which is not by itself a failing input
 			h.c.Fail("structural:spec-table", "params:"+name+":"+k+":unknown-validator",
@@ -997,7 +1041,7 @@ func tableText(specs specification.Specifications) string {
 	var sb strings.Builder
 	for _, k := range keys {
 		s := specs[k]
-		fmt.Fprintf(&sb, "%s %s %s %s; ", k, validatorToken(s.Validator), b2s(s.IsOptional), encValue(s.DefaultValue))
+		fmt.Fprintf(&sb, "%s %s %s %s; ", k, validatorTokenOf(s), b2s(s.IsOptional), encValue(s.DefaultValue))
 	}
 	return sb.String()
 }
@@ -1254,7 +1298,7 @@ func (h *paramHarness) exec(line string) {
 		if p != "" {
 			out = "panic"
 			// getter_total on the implementation: declared type + (non-optional or present) must not panic
-			if s, ok := inst.p().VerifSpecifications()[k]; ok && validatorTy(validatorToken(s.Validator)) == w[3] {
+			if s, ok := inst.p().VerifSpecifications()[k]; ok && validatorTy(validatorTokenOf(s)) == w[3] {
 				if _, present := inst.p().VerifParamMap()[k]; present || !s.IsOptional {
 					c.Fail("getter-total", "params:"+inst.comp.name+":getter-panic", fmt.Sprintf("%s: Get(%s) as its declared type %s panicked: %s", inst.comp.name, k, w[3], p), h.opsOf(inst, line))
 				}
@@ -1693,7 +1737,7 @@ func (h *paramHarness) overflowRootCause(comp string, minimal parameters.Map, fa
 	magnitude := 0.0
 	for k, v := range minimal {
 		s, ok := h.specs[comp][k]
-		if !ok || validatorToken(s.Validator) != "decimal" {
+		if !ok || validatorTokenOf(s) != "decimal" {
 			continue
 		}
 		f, isFloat := v.(float64)
@@ -1935,7 +1979,7 @@ func (h *paramHarness) randomValueFor(comp string, key string, probes []interfac
 	if !ok || (!forUse && r.Chance(0.2)) {
 		return probes[r.Intn(len(probes))]
 	}
-	tok := validatorToken(s.Validator)
+	tok := validatorTokenOf(s)
 	switch strings.Fields(tok)[0] {
 	case "decimal":
 		switch r.Intn(6) {
@@ -2204,7 +2248,7 @@ func suiteParams(c *Ctx) {
 			}
 			for _, k := range specKeys {
 				s := h.specs[pc.name][k]
-				h.exec("get " + id + " k:" + hexS(k) + " " + validatorTy(validatorToken(s.Validator)))
+				h.exec("get " + id + " k:" + hexS(k) + " " + validatorTy(validatorTokenOf(s)))
 				if r.Chance(0.15) {
 					h.exec("get " + id + " k:" + hexS(k) + " " + getterTypes[r.Intn(4)])
 				}
@@ -2337,7 +2381,7 @@ func (h *paramHarness) magnitudeStream(pc *paramComp, specKeys []string) {
 	var dkeys, unbounded []string
 	for _, k := range append(append([]string{}, specKeys...), h.nestedKeys(pc.name)...) {
 		sp, _ := h.specFor(pc.name, k)
-		tok := validatorToken(sp.Validator)
+		tok := validatorTokenOf(sp)
 		if validatorTy(tok) == "float" {
 			dkeys = append(dkeys, k)
 			toks[k] = tok
